@@ -7,5 +7,7 @@ CONSTANTS
   FrameChunks = 2
   MaxMig = 2
   Serial = TRUE
+  Requesters = {1, 2}
+  AcceptGuard = "handling"
 PROPERTIES Progress
 CHECK_DEADLOCK FALSE
